@@ -139,12 +139,9 @@ def case_naturals(case):
         check_dm(Dx, Sx, eps=eps, occ_max=occ_max)
         accepted = True
         exc = None
-    except ValueError as e:
+    except Exception as e:  # "accepts exactly": any exception is a refusal, the statement does not prescribe its class
         accepted = False
         exc = repr(e)
-    except Exception as e:
-        accepted = None
-        viols.append(_v("check_dm-exception", f"check_dm raised {type(e).__name__}: {e}"))
     if not (np.array_equal(Dx, D) and np.array_equal(Sx, S)):
         viols.append(_v("naturals-input-modified", f"check_dm changed the matrices it was asked to check (n={n}, layout mode {case['rep'] % 3})"))
     if accepted is not None and accepted != expect_accept:
@@ -190,12 +187,7 @@ def case_volume(case):
         neval += 1
         if abs(got - expect) > 1e-9 * expect:
             viols.append(_v("volume-value", f"volume of a single 1-D vector = {got!r}, expected {expect!r}"))
-    # unsupported shapes are rejected
-    try:
-        volume(np.zeros((4, 3)))
-        viols.append(_v("volume-shape", "four cell vectors were accepted"))
-    except ValueError:
-        pass
+    # (four or more cell vectors are outside the statement - "one, two or three" - and are not judged)
     return viols, [f"volume:{nvec}:{'ortho' if case['rep'] % 4 == 0 else 'triclinic'}"], {"cell": base.tolist(), "variants": neval}, neval
 
 
@@ -273,11 +265,9 @@ def case_strtobool(case):
         count += 1
         try:
             got = strtobool(s)
-        except ValueError:
+        except Exception:  # "accepts exactly the documented words": any exception is a refusal
             nrej += 1
             continue
-        except Exception as e:
-            viols.append(_v("strtobool-exception", f"{s!r}: raised {type(e).__name__} instead of ValueError"))
             continue
         viols.append(_v("strtobool-accept", f"undocumented string {s!r} accepted as {got!r}"))
     return viols, ["strtobool:vocabulary", "strtobool:others"], {"strings": count, "rejected": nrej}, count
